@@ -288,6 +288,8 @@ var jStrPieces = []string{
 	"a", "key", "Z", "0", " ", ",", ":", "{", "}", "[", "]", ",}", "],", "\\\"", "\\\\", "\\/", "\\b", "\\f", "\\n", "\\r", "\\t",
 	"\\u00e9", "\\uD83D\\uDE00", "\\u0000", "\\uFfFf", "\xc3\xa9", "\xe2\x82\xac", "\xf0\x9f\x98\x80", "\x7f", "'", "#", "<", "//", "/*", "true", "null", "-1",
 	"type", "Feature", "version", "log", "asset",
+	// C1 controls, DEL, line separators (all legal unescaped); lone and reversed surrogate escapes (legal per RFC 8259)
+	"\xc2\x80", "\xc2\x85", "\xc2\x9f", "\xc2\xa0", "\xe2\x80\xa8", "\xef\xbf\xbd", "\\ud83d", "\\uDC00", "\\ud800\\u0041", "\\uDE00\\uD83D", "\\ud83d\\n",
 	// words that other signature checks look for at small fixed offsets
 	"skip", "free", "moov", "mdat", "pnot", "wide", "ftyp", "ftypqt  ", "RIFF", "WAVE", "WEBP", "OggS", "fLaC", "MThd", "FORM", "AIFF", "GIF89a", "BM", "MZ", "ID3", "%PDF-", "PK", "8BPS", "II*", "icns", "PAR1", "Rar!", "BZh", "7z", "wOFF", "OTTO", "ttcf", "TZif", "LZIP", "MSCF", "DJVU", "AT&TFORM", "-----BEGIN PKCS7", "d8:announce", "4500",
 }
